@@ -848,3 +848,11 @@ v("d45-union-enclosure-ignores-suffix", "C04", SM,
 v("d46-merged-terms-not-reordered", "C04", SM, "                subsql.terms = merged_terms\n", "")
 v("d46-merged-terms-sub-order-first", "C04", SM,
   "                for k in list(terms.keys()) + list(subsql.terms.keys()):", "                for k in list(subsql.terms.keys()) + list(terms.keys()):")
+
+v("d47-top-level-select-order-with-path", "C08", SM,
+  "                sql_last = sequence.last_step.to_sql_str_list(\n                    columns=[c for c in ops.column_names],\n", "                sql_last = sequence.last_step.to_sql_str_list(\n")
+v("d47-top-level-select-order-nested-path", "C08", SM,
+  "            sql_str_list = near_sql.to_sql_str_list(\n                columns=[c for c in ops.column_names],\n", "            sql_str_list = near_sql.to_sql_str_list(\n")
+v("d47-twin-list-call", "C08", SM,
+  "            sql_str_list = near_sql.to_sql_str_list(\n                columns=[c for c in ops.column_names],\n", "            sql_str_list = near_sql.to_sql_str_list(\n                columns=list(ops.column_names),\n", expect="silent")
+v("d48-pandas-result-order", "C08", PB, "            res = res[declared_columns]\n", "            pass\n")
